@@ -411,11 +411,16 @@ func c14Run(x *core.Ctx) {
 		for i := 0; i < per; i++ {
 			g := &c14Gen{r: r, schema: schema, defect: c14Defects[r.Intn(len(c14Defects))]}
 			t := mustType(ts)
-			withDefault := i%5 == 4 && !strings.Contains(ts, "One") && !strings.Contains(ts, "Any")
-			supplied := i%7 != 6
+			// every fifth call omits the variable, cycling through: no default, a default, a null default
+			supplied := i%5 != 4
+			defaultable := !strings.Contains(ts, "One") && !strings.Contains(ts, "Any")
+			withDefault := defaultable && ((supplied && i%6 == 0) || (!supplied && (i/5)%3 != 0))
 			c := core.NewCase("vars", "type", ts)
 			if withDefault {
 				c.Set("default", "1")
+				if !supplied && (i/5)%3 == 2 && !strings.HasSuffix(ts, "!") {
+					c.Set("default", "null")
+				}
 			}
 			if supplied {
 				v := g.value(t, 2)
@@ -563,6 +568,9 @@ func c14Check(x *core.Ctx, c *core.Case) {
 		// the default is written at the declared list depth
 		depth := strings.Count(ts, "[")
 		decl += " = " + strings.Repeat("[", depth) + d + strings.Repeat("]", depth)
+		if c.Get("default") == "null" {
+			decl = "$v: " + ts + " = null"
+		}
 	}
 	doc, perr := parser.ParseQuery(&ast.Source{Name: "op.graphql", Input: "query Q(" + decl + ") { f(any: {k: $v}) }"})
 	if perr != nil {
@@ -631,6 +639,13 @@ func c14Check(x *core.Ctx, c *core.Case) {
 			return
 		}
 		x.Count("defaults_applied")
+		if c.Get("default") == "null" {
+			x.Count("null_defaults_applied")
+			if got != nil {
+				x.Violate("default-not-applied", fmt.Sprintf("%#v", got), "null, the declared default")
+			}
+			return
+		}
 		if ok, why := conforms(schema, vd.Type, got, "$v"); !ok {
 			x.Violate("nonconforming-output(default:"+wrapPattern(ts)+")", why, "a value of "+ts)
 		}
